@@ -30,7 +30,7 @@ def character(value):
             return (REFUSE,)
         return (UNJUDGED, "blank given literally")
     if len(stripped) == 1:
-        if stripped.isdigit():
+        if stripped in "0123456789":
             return (UNJUDGED, "a lone digit (character code or literal?)")
         if stripped != value:
             return (UNJUDGED, "literal character surrounded by blanks")
